@@ -30,12 +30,12 @@ Proof.
 Qed.
 Print Assumptions C17_rejected_command_is_harmless.
 
-(* every served command produces a reply: see C16_one_reply_modulo_findings *)
+(* every served command produces a reply: see C16_one_reply *)
 Theorem C17_every_command_answers : forall c name args now s s' acts,
-  server_ok s -> bytes_eqb n_MGET name = false ->
+  server_ok s ->
   serve c name args now s = Some (s', acts) -> acts <> [] /\ server_ok s'.
 Proof.
-  intros c name args now s s' acts Hs Hm H. destruct (serve_one c name args now s s' acts Hs Hm H) as [A B].
+  intros c name args now s s' acts Hs H. destruct (serve_one c name args now s s' acts Hs H) as [A B].
   split; [|exact B]. intro E. subst. discriminate.
 Qed.
 Print Assumptions C17_every_command_answers.
